@@ -73,9 +73,10 @@ def units(tier, seed):
         for n in (12, 40):
             us.append({"kind": "aggdev", "n": n, "seed": seed})
     years = [1999, 2000, 2023, 2024, 1900, 2100]      # 1900 and 2100: divisible by 4 but not leap years
-    for y in years:
-        for m in range(1, 13):
-            us.append({"kind": "m2d", "year": y, "month": m, "tier": tier})
+    # one unit per start month: all years are converted in one process, year innermost, so that anything kept
+    # between calls for "the same start month and length" meets another calendar
+    for m in range(1, 13):
+        us.append({"kind": "m2d", "years": years, "month": m, "tier": tier})
     us.append({"kind": "guards"})
     # size classes beyond the exhaustive bound: structured series with the same per-run reference
     # size ladder around powers of two (typical thresholds of blocked / vectorised code paths)
@@ -249,8 +250,18 @@ def check_inversions(ctx, dutils, runs, vals, case_base):
         for lab, r in zip(labels, runs):
             idx += [lab * 3 - 4] * r
         idx = np.array(idx)
-        for fname in ("aggregate", "flathomogen"):
+        variants = [(None, idx)]
+        # the same inversion with non-negative labels held in other integer types (a difference of unsigned
+        # values wraps around instead of going negative) and as booleans when there are two runs
+        pos = idx + 5
+        for dt in ("int32", "int16", "uint8", "uint16", "uint32", "uint64", "float64"):
+            variants.append((dt, pos.astype(dt)))
+        if len(runs) == 2:
+            variants.append(("bool", pos > pos.min()))
+        for (dt, idx), fname in itertools.product(variants, ("aggregate", "flathomogen")):
             case = dict(case_base, inversion=k, func=fname, index=idx.tolist())
+            if dt is not None:
+                case["index_dtype"] = dt
             try:
                 if fname == "aggregate":
                     out = dutils.aggregate(idx, x, 0, len(vals))
@@ -265,8 +276,9 @@ def check_inversions(ctx, dutils, runs, vals, case_base):
                 ctx.violation("%s:inversion:wrong-exception" % fname, case, "raised %r instead of ValueError" % (e,))
                 continue
             ctx.case(True)
-            ctx.violation("%s:inversion-accepted" % fname, case,
-                          "decreasing aggregation index %s accepted, returned %s" % (idx.tolist(), out.tolist()))
+            ctx.violation("%s:inversion-accepted%s" % (fname, "" if dt is None else ":index-dtype=" + dt), case,
+                          "decreasing aggregation index %s%s accepted, returned %s" % (
+                              idx.tolist(), "" if dt is None else " (%s)" % dt, out.tolist()))
 
 
 def run_agg_unit(unit, ctx):
@@ -415,16 +427,18 @@ def run_m2d_unit(unit, ctx):
     from hydrodiy.data import dutils
     tier = unit["tier"]
     lengths = [2, 3, 13, 14] if tier == "quick" else list(range(2, 41)) + [120, 300]
-    if tier != "quick" and unit["year"] not in (2023, 2024):
-        lengths = [2, 3, 13, 14, 26, 120]
+    few = [2, 3, 13, 14, 26, 120]
     first = True
     for nm in lengths:
         for vals in m2d_patterns(nm, tier):
             for interp in ("flat", "cubic"):
-                if first:
-                    ctx.case(False, n=0, sample={"kind": "m2d", "year": unit["year"], "month": unit["month"], "vals": vals, "interp": interp})
-                    first = False
-                check_m2d_case(ctx, dutils, unit["year"], unit["month"], vals, interp)
+                for year in unit["years"]:
+                    if tier != "quick" and year not in (2023, 2024) and nm not in few:
+                        continue
+                    if first:
+                        ctx.case(False, n=0, sample={"kind": "m2d", "year": year, "month": unit["month"], "vals": vals, "interp": interp})
+                        first = False
+                    check_m2d_case(ctx, dutils, year, unit["month"], vals, interp)
 
 
 def run_guards(unit, ctx):
@@ -470,6 +484,8 @@ def layout_variants(idx, x):
     out = [("float32", idx, x.astype(np.float32)),
            ("index-int32", idx.astype(np.int32), x),
            ("index-float64", idx.astype(np.float64), x),
+           ("index-uint32", idx.astype(np.uint32), x),
+           ("index-uint64", idx.astype(np.uint64), x),
            ("index-list", idx.tolist(), x)]
     big = np.full(2 * len(x) + 1, 7.25)
     big[1::2] = x
